@@ -2,6 +2,7 @@
 
 from __future__ import annotations
 
+import contextlib
 import hashlib
 import json
 import os
@@ -203,3 +204,15 @@ def is_library_error(e: BaseException) -> bool:
 
 def now() -> float:
     return time.monotonic()
+
+
+@contextlib.contextmanager
+def oracle_room(limit: int = 200000):
+    """Stack room for the monitor's own recursive folds over very deep programs. Restores the previous recursion
+    limit on exit so that the code under observation never runs under a limit the harness raised."""
+    old = sys.getrecursionlimit()
+    sys.setrecursionlimit(max(old, limit))
+    try:
+        yield
+    finally:
+        sys.setrecursionlimit(old)
